@@ -609,6 +609,35 @@ pub fn build(template: &str, a: &str, b: &str) -> Option<Program> {
     Some(Program::single(cx.items, cx.n.names.clone()))
 }
 
+/// the one place of the signature where the type parameter occurs, each function instantiated at three
+/// types in one program: (name, text, expected output)
+fn signature_position_programs() -> Vec<(String, String, String)> {
+    let head = "trait Show { fn show(Self) -> string; }\nimpl Show for int32 { fn show(self: int32) -> string { \"i\" + int32_to_string(self) } }\nimpl Show for bool { fn show(self: bool) -> string { \"b\" + bool_to_string(self) } }\nimpl Show for string { fn show(self: string) -> string { \"s\" + self } }\nfn seven() -> int32 { 7 }\nfn yes() -> bool { true }\nfn word() -> string { \"w\" }\nfn mk_seven() -> () -> int32 { seven }\nfn mk_yes() -> () -> bool { yes }\nfn mk_word() -> () -> string { word }\nfn seven_of(n: int32) -> int32 { n + 7 }\nfn yes_of(n: int32) -> bool { n > 0 }\nfn word_of(n: int32) -> string { \"w\" + int32_to_string(n) }\nfn pair7(n: int32) -> (int32, int32) { (7, n) }\nfn pairy(n: int32) -> (bool, int32) { (true, n) }\nfn pairw(n: int32) -> (string, int32) { (\"w\", n) }\nfn vec7(n: int32) -> Vec[int32] { vec_push(vec_new(), n) }\nfn vecy(n: int32) -> Vec[bool] { vec_push(vec_new(), n > 0) }\nfn vecw(n: int32) -> Vec[string] { vec_push(vec_new(), \"w\") }\n";
+    // (name, generic function, the three calls, the three lines)
+    let table: [(&str, &str, [&str; 3], [&str; 3]); 10] = [
+        ("parameter", "fn g[T: Show](x: T) -> string { Show::show(x) }", ["g(7)", "g(true)", "g(\"w\")"], ["i7", "btrue", "sw"]),
+        ("result-of-a-function-parameter", "fn g[T: Show](thunk: () -> T) -> string { let v: T = thunk(); Show::show(v) }", ["g(seven)", "g(yes)", "g(word)"], ["i7", "btrue", "sw"]),
+        ("result-of-a-function-parameter-taking-an-argument", "fn g[T: Show](f: (int32) -> T) -> string { let v: T = f(1); Show::show(v) }", ["g(seven_of)", "g(yes_of)", "g(word_of)"], ["i8", "btrue", "sw1"]),
+        ("result-of-the-result-of-a-function-parameter", "fn g[T: Show](t: () -> () -> T) -> string { let inner: () -> T = t(); let v: T = inner(); Show::show(v) }", ["g(mk_seven)", "g(mk_yes)", "g(mk_word)"], ["i7", "btrue", "sw"]),
+        ("function-results-in-a-vector", "fn g[T: Show](fs: Vec[() -> T]) -> string { let f: () -> T = vec_get(fs, 0); let v: T = f(); Show::show(v) }", ["g(vec_push(vec_new(), seven))", "g(vec_push(vec_new(), yes))", "g(vec_push(vec_new(), word))"], ["i7", "btrue", "sw"]),
+        ("function-results-in-a-tuple", "fn g[T: Show](p: (() -> T, int32)) -> string { let f: () -> T = p.0; let v: T = f(); Show::show(v) }", ["g((seven, 1))", "g((yes, 1))", "g((word, 1))"], ["i7", "btrue", "sw"]),
+        ("tuple-result-of-a-function-parameter", "fn g[T: Show](f: (int32) -> (T, int32)) -> string { let p: (T, int32) = f(2); let v: T = p.0; Show::show(v) }", ["g(pair7)", "g(pairy)", "g(pairw)"], ["i7", "btrue", "sw"]),
+        ("vector-result-of-a-function-parameter", "fn g[T: Show](f: (int32) -> Vec[T]) -> string { let xs: Vec[T] = f(3); let v: T = vec_get(xs, 0); Show::show(v) }", ["g(vec7)", "g(vecy)", "g(vecw)"], ["i3", "btrue", "sw"]),
+        ("function-results-in-parameters-and-result", "fn pick[T](f: () -> T, h: () -> T, c: bool) -> () -> T { if c { f } else { h } }\nfn g[T: Show](f: () -> T) -> string { let p: () -> T = pick(f, f, true); let v: T = p(); Show::show(v) }", ["g(seven)", "g(yes)", "g(word)"], ["i7", "btrue", "sw"]),
+        ("no-bound-result-of-a-function-parameter", "fn run[T](thunk: () -> T) -> T { thunk() }\nfn g[T: Show](thunk: () -> T) -> string { let v: T = run(thunk); Show::show(v) }", ["g(seven)", "g(yes)", "g(word)"], ["i7", "btrue", "sw"]),
+    ];
+    let mut out = Vec::new();
+    for (name, func, calls, lines) in table {
+        let mut main = String::from("fn main() {\n");
+        for c in calls {
+            main.push_str(&format!("    string_println({});\n", c));
+        }
+        main.push_str("}\n");
+        out.push((name.to_string(), format!("{}{}\n{}", head, func, main), lines.iter().map(|l| format!("{}\n", l)).collect::<String>()));
+    }
+    out
+}
+
 pub struct Generics;
 
 impl Family for Generics {
@@ -619,7 +648,7 @@ impl Family for Generics {
         &["C07", "C01", "C02", "C03", "C04"]
     }
     fn rule(&self) -> &'static str {
-        "32 generic templates (a two-parameter generic struct whose fields are read inside generic code at an instance with the function's parameters in the other order / shifted; a generic function calling itself with its type parameters swapped; a type parameter of a function / of a method / of an impl block that the signature never mentions (rejected, or valid); a method with a type parameter of its own inside a generic impl, at two instantiations for one receiver type; 8 where the type parameter occurs in the signature only underneath Vec / Ref / array / tuple / Opt / a generic struct / Vec[Ref[.]] / Ref[Vec[.]], each instantiated at two types; a type parameter occurring only in the result type at two instantiations agreeing on the argument-bound parameter, zero-argument generic fixed by the expected type, the same generic at (A,B) and (B,A), Vec/Ref/array element generics, id, pair, apply, Opt unwrap, generic struct with inherent method, trait dispatch through a bound at two impl types, generic calling generic at (T,T), recursive List[T], two bounds, two instances in one program, generic fn as a value, nested instantiation) x 13 type arguments {int32,bool,string,unit,(int32,bool),[int32;2],Vec[int32],Ref[int32],(int32)->int32,S,E2,Opt[int32],Opt[Opt[bool]]} (all ordered pairs for two-parameter templates in thorough, a diagonal band in quick); oracle: output = type-passing reference semantics, emitted Go valid (no type-parameter residue can survive the Go checker); plus 9 polymorphic-recursion programs (a generic function reaching itself at a doubled tuple / Vec / Opt / pair-with-int type, through a second function, through a method, and by two or three recursive calls at different larger types, so that the instances multiply long before any type is large) which must terminate, accepted or rejected, and 2 finite chains of 12 and 40 generic functions each calling the next at a larger type, which must compile and print their length; 4 generic types that mention themselves at a larger instance (enum, struct, through a second type; declared and never used: must be accepted) which must terminate and, if accepted, be valid Go printing the value, 2 regular recursive types (List[T]; one with its parameters permuted) which must be accepted, and 3 associated functions of a generic impl (the impl's parameter unmentioned: rejected or valid Go; in the argument; in the result only: accepted). non-trivial = instantiations at non-scalar types; distinct = distinct source text"
+        "32 generic templates (a two-parameter generic struct whose fields are read inside generic code at an instance with the function's parameters in the other order / shifted; a generic function calling itself with its type parameters swapped; a type parameter of a function / of a method / of an impl block that the signature never mentions (rejected, or valid); a method with a type parameter of its own inside a generic impl, at two instantiations for one receiver type; 8 where the type parameter occurs in the signature only underneath Vec / Ref / array / tuple / Opt / a generic struct / Vec[Ref[.]] / Ref[Vec[.]], each instantiated at two types; a type parameter occurring only in the result type at two instantiations agreeing on the argument-bound parameter, zero-argument generic fixed by the expected type, the same generic at (A,B) and (B,A), Vec/Ref/array element generics, id, pair, apply, Opt unwrap, generic struct with inherent method, trait dispatch through a bound at two impl types, generic calling generic at (T,T), recursive List[T], two bounds, two instances in one program, generic fn as a value, nested instantiation) x 13 type arguments {int32,bool,string,unit,(int32,bool),[int32;2],Vec[int32],Ref[int32],(int32)->int32,S,E2,Opt[int32],Opt[Opt[bool]]} (all ordered pairs for two-parameter templates in thorough, a diagonal band in quick); oracle: output = type-passing reference semantics, emitted Go valid (no type-parameter residue can survive the Go checker); plus 9 polymorphic-recursion programs (a generic function reaching itself at a doubled tuple / Vec / Opt / pair-with-int type, through a second function, through a method, and by two or three recursive calls at different larger types, so that the instances multiply long before any type is large) which must terminate, accepted or rejected, and 2 finite chains of 12 and 40 generic functions each calling the next at a larger type, which must compile and print their length; 4 generic types that mention themselves at a larger instance (enum, struct, through a second type; declared and never used: must be accepted) which must terminate and, if accepted, be valid Go printing the value, 2 regular recursive types (List[T]; one with its parameters permuted) which must be accepted, and 3 associated functions of a generic impl (the impl's parameter unmentioned: rejected or valid Go; in the argument; in the result only: accepted); and 10 generic functions whose type parameter occurs at exactly one place of the signature (a parameter; the result of a function-typed parameter, without and with an argument; the result of its result; function results inside a vector or a tuple; a tuple or vector result of a function-typed parameter; function results in parameters and in the result; through a second generic function), each called at int32, bool and string in one program and dispatching through the bound. non-trivial = instantiations at non-scalar types; distinct = distinct source text"
     }
     fn cases(&self, tier: Tier) -> Box<dyn Iterator<Item = Value> + '_> {
         let mut v = Vec::new();
@@ -646,10 +675,14 @@ impl Family for Generics {
         ] {
             v.push(json!({"template": "polymorphic-recursion", "a": k, "b": "int32"}));
         }
+        for (name, _, _) in signature_position_programs() {
+            v.push(json!({"template": "signature-positions", "a": name, "b": "int32"}));
+        }
         Box::new(v.into_iter())
     }
     fn case_timeout(&self, _tier: Tier) -> u64 {
-        10
+        // unloaded the slowest case takes under a second; the margin is for a loaded machine
+        40
     }
     fn crash_properties(&self) -> &'static [&'static str] {
         &["C04", "C07"]
@@ -657,6 +690,14 @@ impl Family for Generics {
     fn run(&self, case: &Value, ctx: &mut Ctx) -> Report {
         let mut rep = Report::default();
         let (t, a, b) = (case["template"].as_str().unwrap(), case["a"].as_str().unwrap(), case["b"].as_str().unwrap());
+        if t == "signature-positions" {
+            let (name, text, expected) = signature_position_programs().into_iter().find(|(n, _, _)| n == a).unwrap();
+            let site = format!("template=signature-positions;where={}", name);
+            rep.nontrivial_key = Some(text.clone());
+            rep.outcome = Some(site.clone());
+            expect_text_program(ctx, &mut rep, "generics", case, &site, &text, &expected, &["C07", "C01"], &["C07", "C02"], &["C07"]);
+            return rep;
+        }
         if t == "polymorphic-recursion" {
             // f[T](x: T, n) calls f[(T,T)]((x,x), n-1): specialisation must terminate (or be rejected)
             let finite = |depth: usize| {
